@@ -4,7 +4,7 @@ import time
 
 from hypothesis import strategies as st
 
-from pv import gen, model
+from pv import gen, model, refmods
 from pv.runner import Part, Result, _lib_frame
 
 ID = 'C09'
@@ -95,7 +95,10 @@ def check_string(case) -> Result:
 
 BAD_VALUES = ['Foo', 'U:Foo', 'M:Foo', 'X:Foo', 'Glycan:Foo', 'Formula:Xx2', 'Obs:abc', 'M:+x', 'Foo#g1', 'Foo|Bar', '', 'UNIMOD:999999',
               'MOD:99999', 'INFO:only', 'R:Foo', 'G:Foo', 'U:', 'Formula:Xy', 'Formula:C-',
-              'Obs:', 'Obs:+-1']
+              'Obs:', 'Obs:+-1',
+              # case variants of resolvable spellings (names, formulas and glycan names are case-sensitive)
+              'acetyl', 'OXIDATION', 'phospho', 'ACETYL', 'Formula:c2h2o', 'Glycan:hexnac', 'U:acetyl', 'carbamidomethyl']
+WARM_UP = ['Acetyl', 'Oxidation', 'Phospho', 'Formula:C2H2O', 'Glycan:HexNAc', 'U:Acetyl', 'Carbamidomethyl']
 POSITIONS = {
     'residue': 'PEP[{v}]TIDE', 'nterm': '[{v}]-PEPTIDE', 'cterm': 'PEPTIDE-[{v}]', 'labile': '{{{v}}}PEPTIDE', 'unknown': '[{v}]?PEPTIDE',
     'interval': 'PE(PT)[{v}]IDE', 'static-residue': '<[{v}]@T>PEPTIDE', 'static-nterm': '<[{v}]@N-Term>PEPTIDE',
@@ -125,6 +128,10 @@ def check_deferred(case) -> Result:
     except Exception as e:  # noqa
         r.fail('parsing either returns an annotation or raises a ValueError', f'C09/deferred/{pos}/parse-{type(e).__name__}', **ctx)
         return r
+    # the correctly spelled forms are looked up first: an unresolvable spelling must stay unresolvable afterwards
+    for w in WARM_UP:
+        pt.mass(POSITIONS[pos].format(v=w)) if pos != 'isotope' else None
+        pt.mod_mass(w, monoisotopic=False)
     base_m = pt.mass('PEPTIDE')
     base_c = pt.comp('PEPTIDE')
     for fn_name, fn, base in (('mass', lambda: pt.mass(a), base_m), ('comp', lambda: pt.comp(a.copy()), base_c),
@@ -138,6 +145,16 @@ def check_deferred(case) -> Result:
                    f'C09/deferred/{pos}/{fn_name}-raises-{type(e).__name__}', error=str(e)[:100], **ctx)
             continue
         same = (abs(got - base) < 1e-9) if isinstance(got, (int, float)) else (got == base)
+        if not same and pos != 'isotope' and fn_name != 'comp':  # (a composition may legitimately echo a spelled but unknown element)
+            # the corpus values are unresolvable by the independent reference (pv/refmods.py): a value, even a non-zero one, is wrong
+            try:
+                refmods.resolve(v)
+                unresolvable = False
+            except (ValueError, KeyError):
+                unresolvable = True
+            if unresolvable:
+                r.fail('asking for the mass or composition of an unresolvable modification raises a ValueError-family error',
+                       f'C09/deferred/{pos}/{fn_name}-returns-a-value', got=got if isinstance(got, float) else str(got), **ctx)
         if same:
             sig = f'C09/deferred/{pos}/{fn_name}-silently-zero'
             if pos == 'isotope':
